@@ -151,6 +151,9 @@ class Operand(ABC):
                 (self.value.is_direct() or old_value.is_explicit_direct()):
             return DirectOperand(self.operand_string, self.instruction, DirectNumericValue(self.value.int))
 
+        if old_value.is_explicit_direct():
+            return DirectOperand(self.operand_string, self.instruction, self.value)
+
         return ExtendedOperand(self.operand_string, self.instruction, value=self.value)
 
     @abstractmethod
@@ -205,10 +208,18 @@ class PseudoOperand(Operand):
             self.value = NoneValue() if has_no_value else Value.create_from_str(operand_string, instruction)
 
         if instruction.is_pseudo_define:
+            if self.value.is_expression():
+                try:
+                    self.value = self.value.resolve({})
+                except ValueError:
+                    pass
+            if not self.value.is_numeric():
+                raise ValueTypeError("[{}] is not a constant value".format(operand_string))
+            number = -self.value.int if self.value.is_negative() else self.value.int
             if self.operand_string.startswith("$") and len(self.operand_string) > 3:
-                self.value = ExtendedNumericValue(self.value.int)
+                self.value = ExtendedNumericValue(number)
             elif self.value.hex_len() == 2:
-                self.value = DirectNumericValue(self.value.int)
+                self.value = DirectNumericValue(number)
 
     def resolve_symbols(self, symbol_table):
         if self.instruction.mnemonic in ["FCB", "FDB", "RMB"] and (self.value.is_symbol() or self.value.is_expression()):
